@@ -1148,17 +1148,39 @@ def r16(R):
         return op.kind == 'call' and path_is(op.path,
                                              ('self', 'changes', 'pack'))
 
+    def flags_after(node, flags):
+        """locals that hold a constant (the `done = False ... done = True`
+        idiom next to a finally clause)"""
+        fl = dict(flags)
+        for op in F.ops(node):
+            if op.kind in ('store', 'aug') and op.path and \
+                    op.path[0] == '%local' and len(op.path) == 2:
+                v = store_value(op)
+                if isinstance(v, ast.Constant) and op.kind == 'store':
+                    fl[op.path[1]] = bool(v.value)
+                else:
+                    fl.pop(op.path[1], None)
+        return frozenset(fl.items())
+
     def edge(node, st, lab, tgt):
+        ph, flags = st
         if lab in ('e', 'eb'):
-            if st == 'raised' and any(is_pack(op) for op in F.ops(node)):
-                return 'failed'
+            if ph == 'raised' and any(is_pack(op) for op in F.ops(node)):
+                return ('failed', flags)
             return st
+        if node.kind == 'test' and lab in ('T', 'F'):
+            known = dict(flags)
+            for e, truth in implied_atoms(node.ast, lab):
+                if isinstance(e, ast.Name) and e.id in known and \
+                        known[e.id] != truth:
+                    return PRUNE          # the flag says otherwise
+        flags = flags_after(node, flags)
         if any(is_store(op) for op in F.ops(node)):
-            if st == 'start':
-                return 'raised'
-            if st == 'failed':
-                return 'restored'
-        return st
+            if ph == 'start':
+                return ('raised', flags)
+            if ph == 'failed':
+                return ('restored', flags)
+        return (ph, flags)
 
     def at(node, st):
         for op in F.ops(node):
@@ -1166,7 +1188,7 @@ def r16(R):
                 seen['stores'] += 1
             if is_pack(op):
                 seen['packs'] += 1
-        if node.id == g.exit_raise and st == 'failed':
+        if node.id == g.exit_raise and st[0] == 'failed':
             return Violation(
                 'DemoStorage.pack raised self._packed_to, the pack of the '
                 'changes failed and the exception leaves pack() without '
@@ -1175,7 +1197,7 @@ def r16(R):
                 'answered from the base')
         return st
 
-    vs, stats = explore(g, 'start', at=at, edge=edge)
+    vs, stats = explore(g, ('start', frozenset()), at=at, edge=edge)
     R.count(stats)
     R.instance('DemoStorage.pack', packed_to_stores=seen['stores'],
                changes_packs=seen['packs'])
